@@ -1,6 +1,8 @@
 """C11 - flow accumulation equals the sum over everything upstream."""
+import copy
 import itertools
 import os
+import pickle
 from fractions import Fraction
 
 import numpy as np
@@ -31,6 +33,51 @@ FIELD_STORAGE = [
     (np.int32, [-9999, 0, -1]),
     (np.int64, [-9999, 0, -1]),
 ]
+
+
+# How a caller can put the cell values into a grid handed to accumulate, and how the result can be read (the
+# property speaks of cell values: it holds whatever the container, memory layout or accessor).
+# LAYOUTS: container / memory layout of the object that carries the values (all hold the same cell values).
+LAYOUTS = ["c", "f", "tview", "strided", "window", "fwindow", "fstrided", "neg", "negrows", "negcols", "fneg",
+           "readonly", "readonly_f", "swapped", "swapped_f", "wide", "wide_f", "list", "tuple", "flat1d", "bcast"]
+# ROUTES: operation (sequence) that brings that object into the grid.
+ROUTES = ["setter", "resetter", "inplace", "inplace_cells", "setitem", "setitem_each", "fill", "clone", "clone_dtype",
+          "dtype_setter", "from_dict", "pickle", "deepcopy", "copy", "clip", "apply", "load"]
+# READS: accessor through which the cell values of the result grid are read.
+READS = ["ravel", "getitem_vec", "getitem_each", "rowcol", "flat", "tolist", "clone", "pickle", "apply", "rows"]
+# in-place corrections of single cells / rows / columns after the values were put (None = no correction)
+# ("limits": mindata / maxdata set to the extreme values held, which leaves every cell as it is)
+EDITS = [None, "rowcol", "flat", "setitem", "row", "col", "limits"]
+INT_JUNK = [1, 2, 4, 8, 16, 32, 64, 128, 0, 3]
+FLT_JUNK = [0.5, 2.5, -3.0, 7.0]
+
+
+def read_grid(acc, mode, nrows, ncols):
+    """cell values of grid `acc` in row-major order, read through accessor `mode`"""
+    n = nrows * ncols
+    if mode == "ravel":
+        out = acc.data.ravel()
+    elif mode == "getitem_vec":
+        out = acc[np.arange(n)]
+    elif mode == "getitem_each":
+        out = [acc[i] for i in range(n)]
+    elif mode == "rowcol":
+        out = [acc.data[r, c] for r in range(nrows) for c in range(ncols)]
+    elif mode == "flat":
+        out = list(acc.data.flat)
+    elif mode == "tolist":
+        out = [x for row in acc.data.tolist() for x in row]
+    elif mode == "clone":
+        out = acc.clone().data.ravel()
+    elif mode == "pickle":
+        out = pickle.loads(pickle.dumps(acc)).data.ravel()
+    elif mode == "apply":
+        out = acc.apply(np.copy).data.ravel()
+    elif mode == "rows":
+        out = [x for r in range(nrows) for x in acc.data[r]]
+    else:
+        raise AssertionError(mode)
+    return [float(x) for x in out]
 
 
 class quiet_stdout:
@@ -76,8 +123,19 @@ def run(ctx):
                 "NaN and numeric no-data values, the same grid objects taken through one or two successive calls "
                 "(each call checked; cell values of both inputs compared with the generated values after every call); "
                 "boustrophedon grids whose single flow path visits every cell (longest walk under the default limit); "
+                "how the values got into the two grids (class of its own, flow-direction grid with the default field / "
+                "field grid / both): container and memory layout of what is assigned (C, Fortran, transposed view, "
+                "strided, window of a larger C / Fortran array, negative strides, read-only, zero strides, other byte "
+                "order, wider dtype, nested lists / tuples, 1-d row) x operation (data setter on a fresh / used grid, "
+                "in-place assignment to grid.data, grid[k] = v, fill, clone, clone(dtype), dtype setter, from_dict, "
+                "pickle, copy, clip of a larger grid, apply, load of a binary file) x in-place correction of cells / "
+                "rows / columns or tight mindata / maxdata afterwards, values put again in another layout between "
+                "successive calls, nprint default / 1 / 3, explicit cell limit = longest flow path; the grids must hold "
+                "the generated values before the call; result read through .data (ravel, [r, c], rows, flat, tolist), "
+                "grid[k], grid[array], clone, pickle, apply; "
                 "non-trivial = distinct (shape class, field kind, acyclic, cap class, max upstream count class, "
-                "direction storage, zero/non-zero no-data, no-data cells 0/1/2+, field storage, call number)")
+                "direction storage, zero/non-zero no-data, no-data cells 0/1/2+, field storage, call number, how each "
+                "grid got its values, result accessor)")
     ctx.trusted = cm.STD_TRUST
     ctx.tested_not_proved = ["binary64 sums equal the real-number sums to 1e-9 relative (tested with exact rationals)",
                              "input grids' cell values unchanged (tested after every call against the generated values, for every "
@@ -104,26 +162,240 @@ def run(ctx):
             return [rng.choice([0.0, 0.0, -1.5, 2.0, -0.25, 3.0, 1e3]) for _ in range(n)]
         return [rng.uniform(0.0, 10.0) ** 3 for _ in range(n)]
 
+
+    # ---- every way of putting cell values into a grid (class "how the values got there") ----
+    def junk_like(a):
+        """array of the shape / dtype of `a` whose values are all plausible but (mostly) different"""
+        pool = INT_JUNK if np.issubdtype(a.dtype, np.integer) else FLT_JUNK
+        return np.array([rng.choice(pool) for _ in range(a.size)]).astype(a.dtype).reshape(a.shape)
+
+    def other_value(a, k):
+        pool = INT_JUNK if np.issubdtype(a.dtype, np.integer) else FLT_JUNK
+        return rng.choice([v for v in pool if a.dtype.type(v) != a.flat[k]])
+
+    def wider(dt):
+        dt = np.dtype(dt)
+        if np.issubdtype(dt, np.integer):
+            return np.float64 if dt == np.dtype(np.int64) else np.int64
+        return np.float64
+
+    def relayout(a, layout):
+        """an object carrying the cell values of the C-contiguous 2-d array `a` (same values, same shape) in
+        another container / memory layout; values around windows and between strides are junk"""
+        nr, nc = a.shape
+        if layout == "c":
+            return a.copy()
+        if layout == "f":
+            return np.asfortranarray(a)
+        if layout == "tview":
+            return np.ascontiguousarray(a.T).T
+        if layout in ("strided", "fstrided"):
+            sr, sc = rng.choice([(2, 1), (1, 2), (2, 3), (3, 2)])
+            big = junk_like(np.zeros((nr * sr + rng.randint(0, 2), nc * sc + rng.randint(0, 2)), dtype=a.dtype))
+            if layout == "fstrided":
+                big = np.asfortranarray(big)
+            v = big[:nr * sr:sr, :nc * sc:sc]
+            v[...] = a
+            return v
+        if layout in ("window", "fwindow"):
+            r0, c0 = rng.randint(0, 2), rng.randint(0, 2)
+            big = junk_like(np.zeros((nr + r0 + rng.randint(0, 2), nc + c0 + rng.randint(1, 2)), dtype=a.dtype))
+            if layout == "fwindow":
+                big = np.asfortranarray(big)
+            v = big[r0:r0 + nr, c0:c0 + nc]
+            v[...] = a
+            return v
+        if layout == "neg":
+            return a[::-1, ::-1].copy()[::-1, ::-1]
+        if layout == "negrows":
+            return a[::-1].copy()[::-1]
+        if layout == "negcols":
+            return a[:, ::-1].copy()[:, ::-1]
+        if layout == "fneg":
+            return np.asfortranarray(a[::-1, ::-1])[::-1, ::-1]
+        if layout in ("readonly", "readonly_f"):
+            b = a.copy() if layout == "readonly" else np.asfortranarray(a)
+            b.flags.writeable = False
+            return b
+        if layout in ("swapped", "swapped_f"):
+            b = a.astype(a.dtype.newbyteorder())        # non-native byte order
+            return b if layout == "swapped" else np.asfortranarray(b)
+        if layout in ("wide", "wide_f"):
+            b = a.astype(wider(a.dtype))                # another (wider) dtype than the grid's: exact widening
+            return b if layout == "wide" else np.asfortranarray(b)
+        if layout == "list":
+            return a.tolist()
+        if layout == "tuple":
+            return tuple(tuple(r) for r in a.tolist())
+        if layout == "flat1d":                          # a 1-d sequence is a grid of one row
+            return a[0].copy() if nr == 1 else np.asfortranarray(a)
+        if layout == "bcast":                           # zero strides (read-only): uniform values only
+            if a.size and (a == a.flat[0]).all():
+                return np.broadcast_to(a.flat[0], a.shape)
+            return np.ascontiguousarray(a.T).T
+        raise AssertionError(layout)
+
+    def build(name, nrows, ncols, dtype, nodata, exp, how):
+        """a Grid of nrows x ncols cells of type dtype holding the values of the array `exp` (of that dtype),
+        brought there by how = (route, layout, edit)"""
+        route, layout, edit = how
+        n = nrows * ncols
+        first, cells = exp, []
+        if edit is not None and edit != "limits":
+            # some cells first hold another value and are corrected in place afterwards
+            cells = rng.sample(range(n), min(n, rng.randint(1, 3)))
+            first = exp.copy()
+            for k in cells:
+                first.flat[k] = other_value(exp, k)
+
+        def new(dt=dtype, nc=ncols, nr=nrows):
+            return hygrid.Grid(name, nc, nr, dtype=dt, nodata=nodata)
+        if route not in ("fill", "clip", "load"):
+            src = relayout(first, layout)
+        if route == "setter":
+            g = new()
+            g.data = src
+        elif route == "resetter":       # the setter on a grid that already holds (other) values in another layout
+            g = new()
+            g.data = relayout(junk_like(exp), rng.choice(["c", "f", "tview", "list", "window"]))
+            g.data = src
+        elif route == "inplace":
+            g = new()
+            g.data[...] = src
+        elif route == "inplace_cells":
+            g = new()
+            a2 = np.atleast_2d(np.asarray(src))
+            for r in range(nrows):
+                for c in range(ncols):
+                    g.data[r, c] = a2[r, c]
+        elif route == "setitem":
+            g = new()
+            a2 = np.atleast_2d(np.asarray(src))
+            g[np.arange(n)] = [a2[k // ncols, k % ncols] for k in range(n)]
+        elif route == "setitem_each":
+            g = new()
+            a2 = np.atleast_2d(np.asarray(src))
+            for k in rng.sample(range(n), n):
+                g[k] = a2[k // ncols, k % ncols]
+        elif route == "fill":           # fill with the most frequent value, then the other cells one by one
+            g = new()
+            vals = [first.flat[k] for k in range(n)]
+            top = max(set(vals), key=vals.count)
+            g.fill(top)
+            for k in range(n):
+                if vals[k] != top:
+                    g.data[k // ncols, k % ncols] = vals[k]
+        elif route == "clone":
+            s = new()
+            s.data = src
+            g = s.clone()
+        elif route == "clone_dtype":    # held as another type, cloned into the wanted type
+            s = new(wider(dtype))
+            s.data = src
+            g = s.clone(dtype)
+        elif route == "dtype_setter":
+            g = new(wider(dtype))
+            g.data = src
+            g.dtype = dtype
+        elif route == "from_dict":
+            g = hygrid.Grid.from_dict(new().to_dict())
+            g.data = src
+        elif route in ("pickle", "deepcopy", "copy"):
+            s = new()
+            s.data = src
+            g = pickle.loads(pickle.dumps(s)) if route == "pickle" else \
+                copy.deepcopy(s) if route == "deepcopy" else copy.copy(s)
+        elif route == "apply":
+            # generator restriction: the function applied returns a C-ordered array.  Grid.apply stores what the
+            # function returns without the data setter's np.ascontiguousarray, so grid.apply(np.transpose) on a
+            # square grid (or np.asfortranarray) leaves a Fortran-ordered array in the grid and accumulate then raises
+            # ValueError('ndarray is not C-contiguous') on that (valid, acyclic) grid - reported to the coordinator
+            # as a defect of Grid.apply, not exercised here.
+            s = new()
+            s.data = src
+            g = s.apply(np.copy)
+        elif route == "load":           # binary file (BIL) in the native or the other byte order
+            bo = rng.choice(["=", "<", ">"])
+            path = cm.scratch() / "c11_load.bin"
+            path.write_bytes(first.astype(first.dtype.newbyteorder(bo)).tobytes())
+            g = new()
+            g.load(str(path), byteorder=bo)
+        elif route == "clip":           # the grid is the clip of a larger grid (cell centres of its two corners)
+            r0, c0, r1, c1 = rng.randint(0, 2), rng.randint(0, 2), rng.randint(0, 2), rng.randint(0, 2)
+            BR, BC = nrows + r0 + r1, ncols + c0 + c1
+            bigarr = junk_like(np.zeros((BR, BC), dtype=exp.dtype))
+            bigarr[r0:r0 + nrows, c0:c0 + ncols] = first
+            big = new(dtype, BC, BR)
+            big.data = relayout(bigarr, layout if layout != "flat1d" else "c")
+            g = big.clip(c0 + 0.5, BR - 1 - (r0 + nrows - 1) + 0.5, c0 + ncols - 1 + 0.5, BR - 1 - r0 + 0.5)
+        else:
+            raise AssertionError(route)
+        for k in cells:
+            r, c, v = k // ncols, k % ncols, exp.flat[k]
+            if edit == "rowcol":
+                g.data[r, c] = v
+            elif edit == "flat":
+                g.data.flat[k] = v
+            elif edit == "setitem":
+                g[k] = v
+            elif edit == "row":
+                g.data[r, :] = exp[r, :]
+            elif edit == "col":
+                g.data[:, c] = exp[:, c]
+            else:
+                raise AssertionError(edit)
+        if edit == "limits":
+            g.mindata = exp.min()
+            g.maxdata = exp.max()
+        return g
+
+    def holds(g, exp):
+        a = np.asarray(g.data)
+        return a.shape == exp.shape and np.array_equal(a.astype(np.float64), exp.astype(np.float64), equal_nan=True)
+
     def do(nrows, ncols, fd, kind, field, maxcells=-1, nodata=float("nan"), fd_dtype=np.int64, fd_nodata=0,
-           field_dtype=np.float64, default_field=None, calls=1):
+           field_dtype=np.float64, default_field=None, calls=1, fd_how=None, ta_how=None, read="ravel",
+           nprint=10 ** 9, again=()):
         """One pair of grid objects (flow directions stored as fd_dtype with no-data value fd_nodata; field stored
         as field_dtype with no-data value nodata, or the default unit field) taken through `calls` successive
-        calls of accumulate; every call is a case of its own (model correspondence + oracle)."""
+        calls of accumulate; every call is a case of its own (model correspondence + oracle).
+        fd_how / ta_how = (route, layout, edit): how the cell values are brought into the two grids (default: the
+        data setter with a C array); again = for the calls after the first, (fd_how, ta_how) with which the same
+        values are put again into the same grid objects before the call (None = left as they are); read = accessor
+        of the result grid; nprint = None leaves the argument at its default."""
         n = nrows * ncols
         fd = [int(v) for v in fd]
-        g = hygrid.Grid("fd", ncols, nrows, dtype=fd_dtype, nodata=fd_nodata)
-        g.data = np.array(fd, dtype=fd_dtype).reshape(nrows, ncols)
-        assert [int(x) for x in g.data.ravel()] == fd, "generator: direction values do not fit the storage type"
+        fd_exp = np.array(fd, dtype=fd_dtype).reshape(nrows, ncols)
+        assert [int(x) for x in fd_exp.ravel()] == fd, "generator: direction values do not fit the storage type"
+        hows = {"flowdir_put": "setter/c" if fd_how is None else "/".join(map(str, fd_how)),
+                "field_put": "setter/c" if ta_how is None else "/".join(map(str, ta_how))}
+        if fd_how is None:
+            g = hygrid.Grid("fd", ncols, nrows, dtype=fd_dtype, nodata=fd_nodata)
+            g.data = fd_exp
+        else:
+            g = build("fd", nrows, ncols, fd_dtype, fd_nodata, fd_exp, fd_how)
+        pre_ok = holds(g, fd_exp)
         if default_field is None:
             default_field = kind == "unit" and nodata == float(fd_nodata)
+        ta_exp = None
         if default_field:
             # accumulate(flowdir): unit field, no-data value of the flow-direction grid
             ta, stored, nd = None, [1.0] * n, float(g.nodata)
         else:
-            ta = hygrid.Grid("ta", ncols, nrows, dtype=field_dtype, nodata=nodata)
-            ta.data = np.array(field, dtype=np.float64).reshape(nrows, ncols)
-            # the accumulated field is what the grid holds (float32 / integer storage rounds what it is given)
-            stored, nd = [float(x) for x in ta.data.ravel()], float(ta.nodata)
+            ta_exp = np.array(field, dtype=np.float64).reshape(nrows, ncols).astype(field_dtype)
+            exact = np.array_equal(ta_exp.astype(np.float64).ravel(), np.array(field, dtype=np.float64))
+            if ta_how is None:
+                ta = hygrid.Grid("ta", ncols, nrows, dtype=field_dtype, nodata=nodata)
+                ta.data = np.array(field, dtype=np.float64).reshape(nrows, ncols)
+            else:
+                ta = build("ta", nrows, ncols, field_dtype, nodata, ta_exp, ta_how)
+            if exact or ta_how is not None:
+                # the storage type holds the generated values exactly: these are the accumulated field
+                stored, pre_ok = [float(x) for x in ta_exp.ravel()], pre_ok and holds(ta, ta_exp)
+            else:
+                # the accumulated field is what the grid holds (float32 / integer storage rounds what it is given)
+                stored = [float(x) for x in ta.data.ravel()]
+            nd = float(ta.nodata)
         fdt = np.dtype(fd_dtype).name
         tat = "default" if ta is None else np.dtype(field_dtype).name
         holes = sum(1 for v in fd if v == fd_nodata)
@@ -139,12 +411,12 @@ def run(ctx):
         def oracle(idx, res):
             # ---- oracle (independent of the model) ----
             fd_after = [int(x) for x in np.asarray(g.data).ravel()]
-            if np.shape(g.data) != (nrows, ncols) or fd_after != fd:
+            if pre_ok and (np.shape(g.data) != (nrows, ncols) or fd_after != fd):
                 k = next((i for i in range(min(n, len(fd_after))) if fd_after[i] != fd[i]), None)
                 fail(idx, "C11/accumulate/input-grid-altered",
                      f"accumulate changed the cell values of the flow-direction grid ({fdt}, no-data value {fd_nodata})"
                      + (f": cell {k} held {fd[k]}, holds {fd_after[k]} after the call" if k is not None else ""))
-            if ta is not None:
+            if ta is not None and pre_ok:
                 ta_after = np.asarray(ta.data, dtype=np.float64)
                 if ta_after.shape != (nrows, ncols) or not np.array_equal(
                         ta_after.ravel(), np.array(stored, dtype=np.float64), equal_nan=True):
@@ -191,15 +463,33 @@ def run(ctx):
                     return
 
         for call in range(1, calls + 1):
+            if call > 1 and call - 2 < len(again) and again[call - 2] is not None:
+                # the same values put again into the same grid objects, another way
+                fh, th = again[call - 2]
+                if fh is not None:
+                    g.data = relayout(fd_exp, fh[1])
+                    hows["flowdir_put"] += f" then setter/{fh[1]} before call {call}"
+                if th is not None and ta is not None:
+                    ta.data = relayout(ta_exp, th[1])
+                    hows["field_put"] += f" then setter/{th[1]} before call {call}"
+                pre_ok = holds(g, fd_exp) and (ta is None or holds(ta, ta_exp))
             replay = {"nrows": nrows, "ncols": ncols, "flowdir": list(fd), "flowdir_dtype": fdt,
                       "flowdir_nodata": int(fd_nodata), "field": list(stored), "field_dtype": tat,
                       "max_accumulated_cells": maxcells, "nodata": repr(nd),
-                      "call": f"{call} of {calls} on the same grid objects"}
+                      "call": f"{call} of {calls} on the same grid objects",
+                      "flowdir_put": hows["flowdir_put"], "field_put": hows["field_put"],
+                      "result_read": read, "nprint": "default" if nprint is None else nprint}
             cm.mark(replay)
+            shape = None
             try:
                 with quiet_stdout():
-                    acc = hygrid.accumulate(g, ta, nprint=10 ** 9, max_accumulated_cells=maxcells)
-                res = [float(x) for x in acc.data.ravel()]
+                    if nprint is None:
+                        acc = hygrid.accumulate(g, ta, max_accumulated_cells=maxcells)
+                    else:
+                        acc = hygrid.accumulate(g, ta, nprint=nprint, max_accumulated_cells=maxcells)
+                shape = tuple(int(x) for x in np.shape(acc.data))
+                res = read_grid(acc, read, nrows, ncols) if shape == (nrows, ncols) else \
+                    [float(x) for x in np.asarray(acc.data).ravel()]
             except ValueError:
                 res = None
             replay["impl"] = res
@@ -210,9 +500,17 @@ def run(ctx):
             replays.append(replay)
             idx = len(terms) - 1
             ctx.count(((min(nrows, 3), min(ncols, 3)), kind, acyclic, maxcells == -1, min(max(nup or [0]), 4),
-                       res is None, fdt, fd_nodata == 0, min(holes, 2), tat, call))
+                       res is None, fdt, fd_nodata == 0, min(holes, 2), tat, call,
+                       replay["flowdir_put"], replay["field_put"], read))
             if idx % 500 == 0:
                 ctx.sample({k: replay[k] for k in ("nrows", "ncols", "flowdir", "flowdir_dtype", "field", "impl")})
+            if not pre_ok:
+                fail(idx, "C11/accumulate/grid-does-not-hold-given-values",
+                     f"before the call the grids do not hold the cell values given to them (flow directions put by "
+                     f"{hows['flowdir_put']}, field by {hows['field_put']})")
+            if res is not None and shape != (nrows, ncols):
+                fail(idx, "C11/accumulate/not-upstream-sum",
+                     f"the result grid has shape {shape}, the flow-direction grid {(nrows, ncols)}")
             oracle(idx, res)
 
     # ---- corpus: the replay of the fixed defect
@@ -290,6 +588,95 @@ def run(ctx):
             field = field_of(kind, n)
         do(nrows, ncols, fd, kind, field, maxcells, rng.choice(fnds), fd_dtype=dt, fd_nodata=ndv, field_dtype=ft,
            default_field=False, calls=calls)
+
+
+    # ---- how the cell values got into the two grids and how the result is read: the property speaks of cell values,
+    #      so it holds for every container / memory layout of what the caller assigns (C, Fortran, transposed, strided,
+    #      windows of larger arrays, negative strides, read-only, zero strides, other byte order, other dtype, lists,
+    #      tuples, 1-d rows), every operation that brings it into the grid (data setter on a fresh or used grid,
+    #      in-place assignment to grid.data, grid[k] = v, fill, clone, clone(dtype), dtype setter, from_dict, pickle,
+    #      copy, clip of a larger grid, apply, load of a binary file), in-place corrections and data limits afterwards, for the flow-direction grid (with the
+    #      default unit field, which is derived from it) and for the field grid; result read through every accessor.
+    #      Same independent upstream-sum oracle; before the call the grids must hold the generated values.
+    reads = itertools.cycle(READS)
+
+    def put_case(nrows, ncols, target, fd_how, ta_how, maxcells=-1, calls=1, again=(), nprint=10 ** 9, cyclic=False):
+        n = nrows * ncols
+        dt, ndvs = rng.choice(FD_STORAGE)
+        ndv = rng.choice(ndvs)
+        if fd_how is not None and fd_how[1] == "bcast":
+            fd = [rng.choice(CODES)] * n                # one direction everywhere: acyclic, uniform
+        elif cyclic:
+            fd = [rng.choice(VALUES if rng.random() < 0.3 else CODES) for _ in range(n)]
+        else:
+            fd = rand_acyclic(rng, nrows, ncols)
+            if rng.random() < 0.4:
+                fd = [ndv if rng.random() < 0.15 else v for v in fd]
+        if maxcells == "longest":
+            L = max(len(chain(fd, nrows, ncols, c)[0]) for c in range(n))
+            maxcells = L if L >= 1 else -1
+        if target == "flowdir-default":
+            do(nrows, ncols, fd, "unit", [1.0] * n, maxcells, float(ndv), fd_dtype=dt, fd_nodata=ndv,
+               default_field=True, calls=calls, fd_how=fd_how, read=next(reads), nprint=nprint, again=again)
+            return
+        ft, fnds = rng.choice(FIELD_STORAGE)
+        if ta_how is not None and ta_how[1] == "bcast":
+            kind = rng.choice(["unit", "uniform"])
+            field = field_of(kind, n)
+        elif np.issubdtype(ft, np.integer):
+            kind = rng.choice(["unit", "count"])
+            field = [float(rng.randint(0, 1000)) for _ in range(n)] if kind == "count" else field_of(kind, n)
+        else:
+            kind = rng.choice(["uniform", "dyadic", "signed", "random"])
+            field = field_of(kind, n)
+        do(nrows, ncols, fd, kind, field, maxcells, rng.choice(fnds), fd_dtype=dt, fd_nodata=ndv, field_dtype=ft,
+           default_field=False, calls=calls, fd_how=fd_how if target != "field" else None, ta_how=ta_how,
+           read=next(reads), nprint=nprint, again=again)
+
+    def side(layout=None):
+        return rng.choice([2, 2, 3, 3, 4, 5])
+
+    TARGETS = ["field", "flowdir-default", "both"]
+    FLIKE = ["f", "tview", "fwindow", "fstrided", "fneg", "readonly_f", "swapped_f", "wide_f"]
+    for rep in range(ctx.scale(1, 8)):
+        # every layout, by the setter on a fresh and on a used grid
+        for layout in LAYOUTS:
+            for target in TARGETS:
+                for route in ("setter", "resetter"):
+                    nrows, ncols = (1, rng.randint(2, 6)) if layout == "flat1d" else (side(), side())
+                    put_case(nrows, ncols, target, (route, layout, None), (route, layout, None))
+        # every route, with a C and with a Fortran-like source
+        for route in ROUTES:
+            for target in TARGETS:
+                for layout in ("c", rng.choice(FLIKE), rng.choice(LAYOUTS)):
+                    nrows, ncols = (1, rng.randint(2, 6)) if layout == "flat1d" else (side(), side())
+                    put_case(nrows, ncols, target, (route, layout, None), (route, layout, None))
+        # every kind of in-place correction after the values were put
+        for edit in EDITS[1:]:
+            for target in TARGETS:
+                for layout in ("c", rng.choice(FLIKE)):
+                    route = rng.choice(["setter", "resetter", "clone", "pickle", "from_dict"])
+                    put_case(side(), side(), target, (route, layout, edit), (route, layout, edit))
+        # the same grid objects through several calls, the same values put again in another layout in between
+        for layout in ["c"] + FLIKE:
+            for target in TARGETS:
+                l2 = rng.choice(LAYOUTS[:-2])
+                put_case(side(), side(), target, ("setter", l2, None), ("setter", l2, None), calls=2,
+                         again=[(("setter", layout, None), ("setter", layout, None))])
+
+    def rand_how():
+        return (rng.choice(ROUTES), rng.choice(LAYOUTS[:-2] if rng.random() < 0.9 else LAYOUTS), rng.choice(EDITS + [None] * 6))
+    for it in range(ctx.scale(260, 4000)):
+        nrows = rng.choice([1, 2, 2, 3, 3, rng.randint(1, S), rng.randint(2, S)])
+        ncols = rng.choice([1, 2, 2, 3, 3, rng.randint(1, S), rng.randint(2, S)])
+        n = nrows * ncols
+        calls = rng.choice([1, 1, 2, 3])
+        again = [rng.choice([None, (rand_how(), rand_how()), (rand_how(), None), (None, rand_how())])
+                 for _ in range(calls - 1)]
+        u = rng.random()
+        maxcells = -1 if u < 0.75 else "longest" if u < 0.9 else rng.choice([n, n + 3, max(1, n - 1)])
+        put_case(nrows, ncols, rng.choice(TARGETS), rand_how(), rand_how(), maxcells, calls, again,
+                 nprint=rng.choice([None, 1, 3, 10 ** 9, 10 ** 9]), cyclic=rng.random() < 0.1)
 
     # ---- longest possible flow path: every cell of the grid on one meandering path (row-wise or column-wise
     #      boustrophedon, either end as the outlet), so that the walk from the head takes nrows*ncols - 1 steps -
